@@ -1357,9 +1357,21 @@ func closureOrdinal(fn *ssa.Function) int {
 func (e *Engine) checkClosureSpec(fc *fnCtx, st *State, clo *Closure, mk *ssa.MakeClosure) {
 	cfn := clo.Fn.(*ssa.Function)
 	cl, ok := fc.contract.Closures[closureOrdinal(cfn)]
-	if !ok {
+	if !ok || e.droppedClause[cl.Text+fmt.Sprintf(" @closure[%d]", closureOrdinal(cfn))] {
 		return
 	}
+	// a specification that does not fit this literal any more (a literal was added or removed before it, so the ordinal
+	// names another function) is dropped on its own, like any other clause; the rest of the contract is still checked
+	defer func() {
+		if r := recover(); r != nil {
+			if se, ok := r.(specError); ok {
+				e.dropClause(cl.Text+fmt.Sprintf(" @closure[%d]", closureOrdinal(cfn)), se.msg)
+				clo.Spec, clo.SpecEnv = nil, nil
+				return
+			}
+			panic(r)
+		}
+	}()
 	env := fc.env.with(st)
 	env.fc = fc
 	env.vars = map[string]Val{}
